@@ -1,6 +1,9 @@
 package urlfilter
 
 import (
+	"strings"
+
+	"github.com/AdguardTeam/urlfilter/filterlist"
 	"github.com/AdguardTeam/urlfilter/rules"
 )
 
@@ -26,6 +29,44 @@ func verifC06Wiring(k, s, withSource int) {
 	verifSrcRules = make([]*rules.NetworkRule, s)
 	for i := range verifSrcRules {
 		verifSrcRules[i] = rules.VerifC06Rule(vn("s", i, ""))
+	}
+	// the wiring is about which lists reach the verdict, not about matching: the rules carry
+	// nothing that depends on the request besides their pattern (the verdict over all rules: verifC06Web)
+	for _, r := range verifMainRules {
+		verifAssume(rules.VerifAlwaysApplies(r))
+	}
+	for _, r := range verifSrcRules {
+		verifAssume(rules.VerifAlwaysApplies(r))
+	}
+	if !verifSymbolic() {
+		// native replay: a real engine over rules with the same fields whose patterns select the request / the referrer
+		var texts []string
+		for _, r := range verifMainRules {
+			texts = append(texts, rules.VerifTextWithPattern(r, "||a.com/x"))
+		}
+		for _, r := range verifSrcRules {
+			texts = append(texts, rules.VerifTextWithPattern(r, "|http://zq.com/|"))
+		}
+		l := &filterlist.StringRuleList{ID: 1, RulesText: strings.Join(texts, "\n")}
+		st, err := filterlist.NewRuleStorage([]filterlist.RuleList{l})
+		if err != nil {
+			panic(err)
+		}
+		en := NewEngine(st)
+		srcURL := ""
+		src := verifSrcRules
+		if withSource == 1 {
+			srcURL = "http://zq.com/"
+		} else {
+			src = nil
+		}
+		nreq := rules.NewRequest("http://a.com/x", srcURL, rules.TypeOther)
+		verifNote("rules: " + strings.Join(texts, " ; "))
+		verifAssert(rules.VerifVerdict(en.MatchRequest(nreq).GetBasicResult()) == rules.VerifRefClass(verifMainRules, src), "c06: Engine.MatchRequest yields the documented verdict class (referrer rules only when there is a source)")
+		rule, ok := en.networkEngine.Match(nreq)
+		verifAssert(ok == (rule != nil), "c06: NetworkEngine.Match reports ok iff it returns a rule")
+		verifAssert(rules.VerifVerdict(rule) == rules.VerifRefClass(verifMainRules, nil), "c06: NetworkEngine.Match yields the documented verdict class of the request rules")
+		return
 	}
 	req := &rules.Request{URL: "http://a.com/x", URLLowerCase: "http://a.com/x", Hostname: "a.com"}
 	if withSource == 1 {
